@@ -404,6 +404,39 @@ def load_findings(pid):
 
 
 
+
+# ---------------------------------------------------------------- extraction cross-check
+COQ_CHECKSUM = """Definition cksum (l : list N) : N := fold_left (fun a b => ((a * 257 + b + 1) mod 1000000007)%N) l 0%N."""
+
+
+def py_cksum(bs):
+    a = 0
+    for b in bs:
+        a = (a * 257 + b + 1) % 1000000007
+    return a
+
+
+def coq_crosscheck(P, cases):
+    """Evaluates a sample of cases INSIDE Coq (vm_compute on the model, no extraction, no OCaml) and compares with
+    what the extracted driver answers: a check of the extraction + driver layer of the trusted base.
+    P.coq_cases(cases) -> (coq source printing one `list N` of checksums, the same checksums computed from the driver)."""
+    if not hasattr(P, "coq_cases"):
+        return None
+    sample = cases[:getattr(P, "COQ_SAMPLE", 25)]
+    src, expected = P.coq_cases(sample)
+    d = os.path.join(BUILD, P.ID)
+    os.makedirs(d, exist_ok=True)
+    f = os.path.join(d, "crosscheck.v")
+    open(f, "w").write(src)
+    rc, out = sh(["timeout", "300", "coqc", "-Q", COQ, "SWH", f], cwd=d, timeout=320)
+    if rc:
+        return {"ok": False, "why": "coqc failed: " + out[-400:], "n": len(sample)}
+    m = re.search(r"=\s*\[(.*?)\]\s*:\s*list N", out.replace("\n", " "), re.S)
+    got = [int(x) for x in re.findall(r"\d+", m.group(1))] if m else None
+    if got != [int(x) for x in expected]:
+        return {"ok": False, "why": "vm_compute inside Coq gives %s, the extracted driver %s" % (got, expected), "n": len(sample)}
+    return {"ok": True, "n": len(sample)}
+
 # ---------------------------------------------------------------- anchor coverage (how much of the modelled code the run executed)
 def anchor_ranges(P):
     """{(file, qualname): (first_line, last_line)} for the functions listed in P.ANCHORS, read with ast from REPO"""
@@ -506,6 +539,7 @@ def write_evidence(pid, tier, seed, t0, proof, corr, violations, extra_assumptio
         "distribution": corr.get("distribution", {}),
         "disagreements": corr.get("disagreements", 0),
         "anchor_coverage": corr.get("anchor_coverage", {}),
+        "extraction_crosscheck": corr.get("extraction_crosscheck", "not implemented for this property"),
         "known_findings_replayed": corr.get("known", []),
     }
     if "coqchk" in proof:
@@ -725,6 +759,14 @@ def main(argv=None):
         corr["distinct_nontrivial"] = len(nontriv)
         corr["distribution"] = dist
         corr["anchor_coverage"] = acov.report() if acov else {}
+        try:
+            xc = coq_crosscheck(P, cases)
+        except Exception as e:
+            xc = {"ok": False, "why": "cross-check crashed: " + repr(e)}
+        if xc is not None:
+            corr["extraction_crosscheck"] = xc
+            if not xc["ok"]:
+                failures.append(("correspondence:extraction-crosscheck", xc["why"]))
         corr["disagreements"] = len(bad)
     log(f"[{pid}] correspondence: {corr['evaluations']} cases, {corr['distinct_nontrivial']} distinct non-trivial, {len(bad)} bad")
 
